@@ -302,6 +302,17 @@ def check(P, R, tier):
 
     check_bom(P, R)
     check_slot_reads(P, R)
+    # RF2-acc: the values behind the accessor call sites, for the representations that reach them
+    import accdecode
+    sites = {}
+    for key, tagset in list(obligations.items()) + [(k, v[2]) for k, v in findings.items()]:
+        if key[0] != "RF1b-acc":
+            continue
+        m = re.match(r"(\S+) -> (\S+) @", key[2])
+        if m:
+            sites.setdefault(m.group(2), set()).update(t for t in tagset if t)
+    na = accdecode.run_parallel(R, P.tu("libdut_a-date-core.o"), "RF2-acc", sorted(sites.items()), jobs=12)
+    R.floor("RF2-acc", "decoded accessor results at the printers' call sites", na, 50000)
 
 
 FILLS = {"__strfd_get_md": {"m", "d"}, "__strfd_get_m": {"m"}, "__strfd_get_d": {"d"}}
